@@ -1,8 +1,327 @@
-"""C08 — bounded run-time contracts only (no proof obligations built yet); see rtc/C08.py and DESIGN.md section 8."""
-from contracts._bounded_only import make_main
+"""C08 — real spherical harmonics (DESIGN 8/C08).
 
-main = make_main("C08", ["bounded layer only: real functions under executable postconditions on a generated family (rtc/C08.py); nothing is proved"])
+Proved from the real source of grid/utils.py (symbolic l_max, symbolic number of points, symbolic angles):
+
+  generate_real_spherical_harmonics   two nested loop contracts (functional cut points over the Legendre work array, the running factorial
+        factor, the row cursor and the output).  Post: for every degree l <= l_max, order 0 <= m <= l and point p
+              out[l^2]        = sqrt((2l+1)/(4 pi)) P_l^0(phi_p)
+              out[l^2+2m-1]   = sqrt((2l+1)/(4 pi)) sqrt 2 / F(l,m) * P_l^m(phi_p) cos(m theta_p)
+              out[l^2+2m]     = sqrt((2l+1)/(4 pi)) sqrt 2 / F(l,m) * P_l^m(phi_p) sin(m theta_p)
+        i.e. the documented order (m = 0, 1, -1, 2, -2, ...) and normalisation, where P and F are *defined* by the standard recurrences
+              P_0^0 = 1,  P_m^m = (2m-1) sin(phi) P_{m-1}^{m-1},  (l-m) P_l^m = (2l-1) cos(phi) P_{l-1}^m - (l+m-1) P_{l-2}^m
+              F(l,1)^2 = (l+1) l,   F(l,m+1) = F(l,m) sqrt((l+m+1)(l-m))          [F(l,m)^2 = (l+m)!/(l-m)!]
+        (that these recurrences generate the associated Legendre functions without Condon-Shortley phase and the factorial ratio is the
+        textbook fact left assumed); the output has (l_max+1)^2 rows; all rows of all degrees are written exactly once.
+  convert_cart_to_sph                 r, theta, phi of every point relative to the centre: r = |x - c|, theta = arctan2(y, x),
+        phi = arccos(z / r) and 0 at the centre itself; shape / centre validation.
+Values against a 50-digit oracle, both implementations, the addition theorem, derivatives and solid harmonics are decided by the bounded
+layer only (rtc/C08.py); recorded finding: |sin phi|^m in the scipy variant / phi-derivative.
+"""
+from __future__ import annotations
+
+import z3
+
+from pyvc import framework
+from pyvc import interp as I
+from pyvc import npmodel as M
+from pyvc import terms as T
+
+IS, RS = z3.IntSort(), z3.RealSort()
+MOD = "grid.utils"
+FQ = f"{MOD}.generate_real_spherical_harmonics"
+LMAX = z3.Int("l_max")
+NPT = z3.Int("n_pts")
+TH = z3.Function("theta", IS, RS)
+PH = z3.Function("phi", IS, RS)
+PL = z3.Function("legendre", IS, IS, IS, RS)      # (l, m, point)
+FAC = z3.Function("fact_ratio_sqrt", IS, IS, RS)  # sqrt((l+m)!/(l-m)!)
+YROW = z3.Function("y_row", IS, IS, RS)           # (row, point)
+l0, m0, p0, r0, mg, cg = z3.Ints("l0 m0 p0 row0 mg cg")
+
+
+def sn(p):
+    return T.apply_uf("sin", PH(T.zi(p)))
+
+
+def cs(p):
+    return T.apply_uf("cos", PH(T.zi(p)))
+
+
+def fac_sph(l):
+    return T.apply_uf("sqrt", T.truediv(T.add(T.mul(2, T.zr(l)), 1), T.mul(4, T.PI)))
+
+
+SQ2 = T.apply_uf("sqrt", z3.RealVal(2))
+
+
+def init_row(m):
+    return z3.If(T.zi(m) == 0, z3.RealVal(1), z3.RealVal(0))
+
+
+def legendre_axioms(l, m, p):
+    """Definition of P_l^m at (l, m), 0 <= m <= l, l >= 1 (standard recurrences)."""
+    l, m, p = T.zi(l), T.zi(m), T.zi(p)
+    lr, mr = z3.ToReal(l), z3.ToReal(m)
+    return [PL(0, 0, p) == 1,
+            z3.Implies(z3.And(l >= 1, m == l), PL(l, m, p) == (2 * lr - 1) * T.zr(sn(p)) * PL(l - 1, l - 1, p)),
+            z3.Implies(z3.And(l >= 1, m == l - 1), (lr - mr) * PL(l, m, p) == (2 * lr - 1) * T.zr(cs(p)) * PL(l - 1, m, p)),
+            z3.Implies(z3.And(l >= 2, m >= 0, m <= l - 2), (lr - mr) * PL(l, m, p) == (2 * lr - 1) * T.zr(cs(p)) * PL(l - 1, m, p) - (lr + mr - 1) * PL(l - 2, m, p))]
+
+
+def fac_axioms(l, m):
+    l, m = T.zi(l), T.zi(m)
+    lr, mr = z3.ToReal(l), z3.ToReal(m)
+    return [z3.Implies(l >= 1, z3.And(FAC(l, 1) == T.zr(T.apply_uf("sqrt", (lr + 1) * lr)), FAC(l, 1) > 0)),
+            z3.Implies(z3.And(l >= 1, m >= 1, m < l), z3.And(FAC(l, m + 1) == FAC(l, m) * T.zr(T.apply_uf("sqrt", (lr + mr + 1) * (lr - mr))), FAC(l, m) > 0, FAC(l, m + 1) > 0)),
+            z3.Implies(z3.And(l >= 1, m >= 1, m <= l), FAC(l, m) > 0)]
+
+
+def y_axioms(l, m, p):
+    """Definition of the output rows of degree l at order m (documented order and normalisation)."""
+    l, m, p = T.zi(l), T.zi(m), T.zi(p)
+    mr = z3.ToReal(m)
+    base = l * l
+    f = T.zr(fac_sph(l))
+    return [YROW(0, p) == T.zr(fac_sph(0)),
+            z3.Implies(z3.And(l >= 1, m == 0), YROW(base, p) == f * PL(l, 0, p)),
+            z3.Implies(z3.And(l >= 1, m >= 1, m <= l),
+                       z3.And(YROW(base + 2 * m - 1, p) == PL(l, m, p) / FAC(l, m) * f * T.zr(SQ2) * T.zr(T.apply_uf("cos", mr * TH(p))),
+                              YROW(base + 2 * m, p) == PL(l, m, p) / FAC(l, m) * f * T.zr(SQ2) * T.zr(T.apply_uf("sin", mr * TH(p)))))]
+
+
+def row_cursor(l, j):
+    l, j = T.zi(l), T.zi(j)
+    return l * l + z3.If(j == 0, 0, 2 * j - 1)
+
+
+def recursion(chk):
+    eng = chk.eng
+    rep = {"what": "recursion"}
+
+    def thunk(eng_):
+        eng_.assume(z3.And(LMAX >= 0, NPT >= 1, p0 >= 0, p0 < NPT))
+        theta = I.Arr((NPT,), lambda p: TH(T.zi(p)), "real")
+        phi = I.Arr((NPT,), lambda p: PH(T.zi(p)), "real")
+
+        # state after all degrees <= d are complete
+        def pleg_done(d, m, col, p):
+            d, m = T.zi(d), T.zi(m)
+            c0 = z3.If(m <= d, PL(d, m, T.zi(p)), init_row(m))
+            c1 = z3.If(m <= d - 1, PL(d - 1, m, T.zi(p)), init_row(m))
+            return M.select_const(col, [lambda: c0, lambda: c1]) if T.is_sym(col) else (c0 if col == 0 else c1)
+
+        def sh_upto(limit):
+            return lambda row, p: z3.If(T.zi(row) < limit, YROW(T.zi(row), T.zi(p)), z3.RealVal(0))
+
+        def cmp_state(fr, pleg_fn, sh_limit, isph, fac=None):
+            pl = fr.load_name("p_leg")
+            sh = fr.load_name("spherical_harm")
+            out = [z3.BoolVal(pl.ndim == 3 and sh.ndim == 2), T.zi(pl.shape[0]) == LMAX + 1, T.zi(sh.shape[0]) == (LMAX + 1) * (LMAX + 1), T.zi(sh.shape[1]) == NPT,
+                   T.zi(fr.load_name("i_sph")) == isph,
+                   z3.Implies(z3.And(mg >= 0, mg <= LMAX), z3.And(T.zr(pl.fn(mg, 0, p0)) == pleg_fn(mg, 0, p0), T.zr(pl.fn(mg, 1, p0)) == pleg_fn(mg, 1, p0))),
+                   z3.Implies(z3.And(r0 >= 0, r0 < (LMAX + 1) * (LMAX + 1)), T.zr(sh.fn(r0, p0)) == sh_upto(sh_limit)(r0, p0))]
+            if fac is not None:
+                fa = fr.load_name("factorial")
+                out.append(z3.And(z3.BoolVal(fa.ndim == 1), T.zr(fa.fn(0)) == fac))
+            return z3.And(*out)
+
+        # ---- outer loop: k degrees done (degrees 1..k), next degree l = k + 1
+        def inv_outer(fr, kk):
+            kk = T.zi(kk)
+            return cmp_state(fr, lambda m, c, p: pleg_done(kk, m, c, p), (kk + 1) * (kk + 1), (kk + 1) * (kk + 1))
+
+        def havoc_outer(fr, nm, old):
+            k = outer.k
+            if nm == "p_leg":
+                old.fn = lambda m, c, p, k=k: pleg_done(k, m, c, p)
+            elif nm == "spherical_harm":
+                old.fn = sh_upto((k + 1) * (k + 1))
+            elif nm == "i_sph":
+                return (k + 1) * (k + 1)
+            elif nm == "factorial":
+                st = T.fresh("stale_factorial", "real")
+                return I.Arr((1,), lambda i, st=st: st, "real")
+            return None
+        outer = I.LoopSpec(inv_outer, havoc=havoc_outer, name="degrees", modifies=["p_leg", "spherical_harm", "i_sph", "factorial"])
+
+        # ---- inner loop at degree l = outer.k + 1: orders < j done
+        def pleg_mid(l, j, m, col, p):
+            l, j, m = T.zi(l), T.zi(j), T.zi(m)
+            new0 = PL(l, m, T.zi(p))
+            new1 = z3.If(m <= l - 1, PL(l - 1, m, T.zi(p)), init_row(m))
+            old0 = z3.If(m <= l - 1, PL(l - 1, m, T.zi(p)), init_row(m))
+            old1 = z3.If(m <= l - 2, PL(l - 2, m, T.zi(p)), init_row(m))
+            c0 = z3.If(m < j, new0, old0)
+            c1 = z3.If(z3.And(m < j, m < l), new1, old1)
+            return M.select_const(col, [lambda: c0, lambda: c1]) if T.is_sym(col) else (c0 if col == 0 else c1)
+
+        def inv_inner(fr, jj):
+            jj = T.zi(jj)
+            l = outer.k + 1
+            return cmp_state(fr, lambda m, c, p: pleg_mid(l, jj, m, c, p), row_cursor(l, jj), row_cursor(l, jj),
+                             fac=z3.If(z3.And(jj >= 1, jj <= l), FAC(l, jj), T.zr(fr.load_name("factorial").fn(0))))
+
+        def havoc_inner(fr, nm, old):
+            j = inner.k
+            l = outer.k + 1
+            if nm == "p_leg":
+                old.fn = lambda m, c, p, j=j, l=l: pleg_mid(l, j, m, c, p)
+            elif nm == "spherical_harm":
+                old.fn = sh_upto(row_cursor(l, j))
+            elif nm == "i_sph":
+                return row_cursor(l, j)
+            elif nm == "factorial":
+                st = T.fresh("stale_factorial", "real")
+                return I.Arr((1,), lambda i, j=j, l=l, st=st: z3.If(z3.And(j >= 1, j <= l), FAC(l, j), st), "real")
+            return None
+        inner = I.LoopSpec(inv_inner, havoc=havoc_inner, name="orders", modifies=["p_leg", "spherical_harm", "i_sph", "factorial"])
+        eng_.loop_specs[(FQ, 1)] = outer
+        eng_.loop_specs[(FQ, 2)] = inner
+        try:
+            out = eng_.call(eng_.get_function(MOD, "generate_real_spherical_harmonics"), [LMAX, theta, phi])
+            return out
+        finally:
+            eng_.loop_specs.pop((FQ, 1), None)
+            eng_.loop_specs.pop((FQ, 2), None)
+    nund = len(chk.undecided)
+    outs = chk.explore("generate_real_spherical_harmonics", thunk, func=FQ)
+    if len(chk.undecided) == nund:
+        ok = any(o.kind == "return" for o in outs) and sum(1 for o in outs if o.kind == "end") >= 2 and not any(o.kind == "raise" for o in outs)
+        chk.add("generate_real_spherical_harmonics/paths/exit-degree-step-and-order-step-paths-explored-no-raise", [], z3.BoolVal(ok), func=FQ,
+                meta={"replay": rep, "paths": str(sorted({(o.kind, o.note, o.exc) for o in outs}, key=str))})
+    for oi, o in enumerate(outs):
+        kv = [u for u in T.subterms(z3.And(*[h for h in o.pc if T.is_sym(h)] + [z3.BoolVal(True)])).values() if z3.is_const(u) and u.decl().name().startswith("k!")]
+        # definitions instantiated where this path needs them: at (degree being processed, order being processed)
+        kv = sorted(kv, key=lambda u: int(u.decl().name().split("!")[1]))
+        defs = [PL(0, 0, p0) == 1, YROW(0, p0) == T.zr(fac_sph(0))]
+        if len(kv) >= 2:
+            l_, j_ = kv[0] + 1, kv[1]
+            defs += legendre_axioms(l_, j_, p0) + fac_axioms(l_, j_) + y_axioms(l_, j_, p0)
+        # nonlinear index facts as separately proved lemmas: rows of degree l lie in [l^2, (l+1)^2) and squares are monotone
+        lem = []
+        for k in kv:
+            for (a, b, tag) in ((k + 1, LMAX, "next-degree"), (k, LMAX, "degree")):
+                f1 = z3.Implies(z3.And(a >= 0, a <= b), (a + 1) * (a + 1) <= (b + 1) * (b + 1))
+                f2 = a * a + 2 * a < (a + 1) * (a + 1)
+                chk.add(f"generate_real_spherical_harmonics/path{oi}/lemma/squares-{tag}-{k}", [], z3.And(f1, f2), kind="lemma", func=FQ, meta={"replay": rep})
+                lem += [f1, f2]
+        for ob in o.obligations:
+            ob.hyps = list(ob.hyps) + defs + lem
+        if len(kv) >= 2:
+            # case analysis on the generic output row: the two rows written in this iteration, or any other row
+            rc = row_cursor(kv[0] + 1, kv[1])
+            split = []
+            for ob in o.obligations:
+                if ob.kind == "inv-step" and "loop2" in ob.name and z3.is_and(ob.goal):
+                    conj = [ob.goal.arg(c) for c in range(ob.goal.num_args())]
+                    # lemma chain: the Legendre work array is compared first (generic order mg); its instance at the order just processed is a
+                    # hypothesis of the output-row comparison
+                    def syms(c):
+                        return {u.decl().name() for u in T.subterms(c).values() if z3.is_app(u)}
+                    leg_at_j = [z3.substitute(c, (mg, kv[1])) for c in conj if "legendre" in syms(c) and "y_row" not in syms(c)]
+                    for tag, cond in (("row-written-first", r0 == rc), ("row-written-second", r0 == rc + 1), ("row-untouched", z3.And(r0 != rc, r0 != rc + 1))):
+                        for ci, c in enumerate(conj):
+                            extra = leg_at_j if "y_row" in syms(c) else []
+                            # index normalisations (negative-index wrap, range guards) decided by the path condition are resolved before solving
+                            lin = [h for h in o.pc if T.is_sym(h)] + [cond, r0 >= 0, r0 < (LMAX + 1) * (LMAX + 1), mg >= 0, mg <= LMAX] + lem
+                            c2 = T.resolve_ites(c, lin)
+                            extra2 = [T.resolve_ites(e, lin) for e in extra]
+                            split.append(I.Obligation(f"{ob.name}/{tag}#{ci}", list(ob.hyps) + [cond] + extra2, ob.assumptions, c2, ob.kind, dict(ob.meta)))
+                else:
+                    split.append(ob)
+            o.obligations[:] = split
+        chk.add_from_path(f"generate_real_spherical_harmonics/path{oi}", o, func=FQ, meta={"replay": rep})
+        if o.kind in ("return", "end"):
+            chk.canary("generate_real_spherical_harmonics", list(o.pc))
+        if o.kind != "return":
+            continue
+        out = o.value
+        hy = list(o.pc) + legendre_axioms(l0, m0, p0) + fac_axioms(l0, m0) + y_axioms(l0, m0, p0)
+        rng = [l0 >= 0, l0 <= LMAX, m0 >= 0, m0 <= l0]
+        steps = [("rows-of-degree-l0-lie-below-the-next-square", z3.And(l0 * l0 + 2 * m0 <= l0 * l0 + 2 * l0, l0 * l0 + 2 * l0 < (l0 + 1) * (l0 + 1))),
+                 ("squares-are-monotone", (l0 + 1) * (l0 + 1) <= (LMAX + 1) * (LMAX + 1))]
+        f = T.zr(fac_sph(l0))
+        mr = z3.ToReal(m0)
+        want0 = z3.Implies(m0 == 0, T.zr(out.fn(l0 * l0, p0)) == z3.If(l0 == 0, T.zr(fac_sph(0)), f * PL(l0, 0, p0)))
+        wantm = z3.Implies(m0 >= 1, z3.And(
+            T.zr(out.fn(l0 * l0 + 2 * m0 - 1, p0)) == PL(l0, m0, p0) / FAC(l0, m0) * f * T.zr(SQ2) * T.zr(T.apply_uf("cos", mr * TH(p0))),
+            T.zr(out.fn(l0 * l0 + 2 * m0, p0)) == PL(l0, m0, p0) / FAC(l0, m0) * f * T.zr(SQ2) * T.zr(T.apply_uf("sin", mr * TH(p0)))))
+        chk.add("generate_real_spherical_harmonics/post/shape-is-(l_max+1)^2-by-points", hy,
+                z3.And(z3.BoolVal(out.ndim == 2), T.zi(out.shape[0]) == (LMAX + 1) * (LMAX + 1), T.zi(out.shape[1]) == NPT), func=FQ, meta={"replay": rep})
+        chk.chain("generate_real_spherical_harmonics/post/every-row-is-the-harmonic-of-its-(l,m)-in-the-documented-order-and-normalisation", hy + rng, steps,
+                  z3.And(want0, wantm), func=FQ, meta={"replay": rep})
+
+
+def cart_to_sph(chk):
+    eng = chk.eng
+    fq = f"{MOD}.convert_cart_to_sph"
+    X = z3.Function("cart", IS, IS, RS)
+    ctr = [z3.Real(f"c{k}") for k in range(3)]
+    N = z3.Int("n_points")
+    rep = {"what": "cart2sph"}
+    for with_centre in (True, False):
+        tag = "centre-given" if with_centre else "centre-default"
+
+        def thunk(eng_, with_centre=with_centre):
+            eng_.assume(z3.And(N >= 1, p0 >= 0, p0 < N))
+            pts = I.Arr((N, 3), lambda i, c: X(T.zi(i), T.zi(c)), "real")
+            c = I.Arr((3,), lambda k: M.select_const(k, [lambda v=v: v for v in ctr]), "real") if with_centre else None
+            return eng_.call(eng_.get_function(MOD, "convert_cart_to_sph"), [pts, c])
+        outs = chk.explore(f"convert_cart_to_sph/{tag}", thunk, func=fq)
+        rets = [o for o in outs if o.kind == "return"]
+        chk.add(f"convert_cart_to_sph/{tag}/post/returns-on-every-path", [], z3.BoolVal(bool(rets) and len(rets) == len(outs)), func=fq, meta={"replay": rep})
+        cc = ctr if with_centre else [z3.RealVal(0)] * 3
+        d = [X(p0, k) - cc[k] for k in range(3)]
+        rr = T.zr(T.apply_uf("sqrt", d[0] * d[0] + d[1] * d[1] + d[2] * d[2]))
+        for oi, o in enumerate(rets):
+            out = o.value
+            chk.add_from_path(f"convert_cart_to_sph/{tag}/path{oi}", o, func=fq, meta={"replay": rep})
+            chk.add(f"convert_cart_to_sph/{tag}/post/radius-azimuth-polar-angle-of-the-point-relative-to-the-centre", list(o.pc),
+                    z3.And(z3.BoolVal(out.ndim == 2), T.zi(out.shape[0]) == N, z3.BoolVal(M.dim_eq(out.shape[1], 3)),
+                           T.zr(out.fn(p0, 0)) == rr, T.zr(out.fn(p0, 1)) == T.ARCTAN2(d[1], d[0]),
+                           T.zr(out.fn(p0, 2)) == z3.If(rr == 0, z3.RealVal(0), T.zr(T.apply_uf("arccos", d[2] / rr)))), func=fq, meta={"replay": rep})
+            chk.canary(f"convert_cart_to_sph/{tag}", list(o.pc))
+
+    def bad(eng_, kind):
+        eng_.assume(N >= 1)
+        if kind == "points-not-n-by-3":
+            return eng_.call(eng_.get_function(MOD, "convert_cart_to_sph"), [I.Arr((N, 2), lambda i, c: X(T.zi(i), T.zi(c)), "real")])
+        if kind == "points-one-dimensional":
+            return eng_.call(eng_.get_function(MOD, "convert_cart_to_sph"), [I.Arr((N,), lambda i: X(T.zi(i), 0), "real")])
+        return eng_.call(eng_.get_function(MOD, "convert_cart_to_sph"), [I.Arr((N, 3), lambda i, c: X(T.zi(i), T.zi(c)), "real"), I.Arr((2,), lambda k: z3.RealVal(0), "real")])
+    for kind in ("points-not-n-by-3", "points-one-dimensional", "centre-of-wrong-length"):
+        outs = chk.explore(f"convert_cart_to_sph/{kind}", lambda e, kind=kind: bad(e, kind), func=fq)
+        chk.add(f"convert_cart_to_sph/raises/{kind}", [], z3.BoolVal(bool(outs) and all(o.kind == "raise" and o.exc == "ValueError" for o in outs)), func=fq,
+                meta={"replay": rep})
+
+    # the conversion inverts the spherical parametrisation x = c + r (sin phi cos theta, sin phi sin theta, cos phi): lemma chain over the
+    # formulas proved above, with the defining facts of sqrt / arctan2 / arccos as hypotheses (textbook, listed in the trusted base)
+    x, y, z = z3.Reals("dx dy dz")
+    r, rho, u, s1, ct, st_ = z3.Reals("r rho u sin_phi cos_theta sin_theta")
+    facts = [r >= 0, r * r == x * x + y * y + z * z, rho >= 0, rho * rho == x * x + y * y,        # square roots
+             rho * ct == x, rho * st_ == y,                                                         # theta = arctan2(y, x)
+             r > 0, u * r == z, s1 >= 0, s1 * s1 == 1 - u * u]                                      # phi = arccos(z / r): cos phi = u, sin phi = sqrt(1 - u^2)
+    steps = [("square-of-r-sin-phi", (r * s1) * (r * s1) == r * r - z * z), ("equals-rho-squared", (r * s1) * (r * s1) == rho * rho),
+             ("r-sin-phi-is-rho", r * s1 == rho)]
+    chk.chain("convert_cart_to_sph/lemma/spherical-parametrisation-is-inverted-away-from-the-centre", facts, steps,
+              z3.And(r * s1 * ct == x, r * s1 * st_ == y, r * u == z), func=fq, meta={"replay": rep})
 
 
 def build(chk):
-    return None
+    recursion(chk)
+    cart_to_sph(chk)
+
+
+def main(tier="quick", seed=0, bounded=True, proof=True):
+    chk = framework.Check("C08", tier, seed, level="proof")
+    chk.trusted += [
+        "floats are reals (no rounding; np.longdouble is a real)",
+        "definition by recurrence: the standard three-term / diagonal recurrences generate the associated Legendre functions (no Condon-Shortley phase) and "
+        "F(l,m)^2 = (l+m)!/(l-m)! -- textbook facts, not proved; the proof shows that the code computes exactly the sequence these recurrences define, "
+        "in the documented row order and normalisation",
+        "sin/cos/sqrt as uninterpreted functions (only congruence is used)",
+        "values against a multiprecision oracle, the scipy variant, derivatives, addition theorem, solid harmonics: bounded layer only",
+    ]
+    if proof:
+        build(chk)
+    return chk.finish(bounded_args=[] if bounded else None)
